@@ -256,6 +256,8 @@ pub enum ConvertError {
     Cast(String, &'static str),
     #[error("constant {0} overflows {1}")]
     Overflow(DataValue, DataType),
+    #[error("integer overflow in {0}")]
+    IntegerOverflow(&'static str),
     #[error("no function {0}({1})")]
     NoUnaryOp(String, &'static str),
     #[error("no function {0}({1}, {2})")]
